@@ -210,7 +210,8 @@ func (e *MetaCDC) ReloadTask() {
 			continue
 		}
 		if err := e.startInternal(taskInfo, taskInfo.State == meta.TaskStateRunning); err != nil {
-			log.Warn("fail to start the task", zap.Any("task_info", taskInfo), zap.Error(err))
+			logTaskInfo := *taskInfo // request.GetTask blanks the credentials of what it is given
+			log.Warn("fail to start the task", zap.Any("task_info", request.GetTask(&logTaskInfo)), zap.Error(err))
 			_ = e.pauseTaskWithReason(taskInfo.TaskID, "fail to start task, err: "+err.Error(), []meta.TaskState{})
 		}
 		// replicateEntity := e.replicateEntityMap.data[uKey]
@@ -439,7 +440,7 @@ func (e *MetaCDC) Create(req *request.CreateRequest) (resp *request.CreateRespon
 	defer func() {
 		log.Info("create request done")
 		if err != nil {
-			log.Warn("fail to create cdc task", zap.Any("req", req), zap.Error(err))
+			log.Warn("fail to create cdc task", zap.String("req", GetRequestInfo(req)), zap.Error(err))
 		}
 	}()
 	if err = e.validCreateRequest(req); err != nil {
@@ -729,7 +730,7 @@ func (e *MetaCDC) validCreateRequest(req *request.CreateRequest) error {
 			cdcwriter.DialConfigOption(milvusConnectParam.DialConfig),
 		)
 		if err != nil {
-			log.Warn("fail to connect the milvus", zap.Any("connect_param", milvusConnectParam), zap.Error(err))
+			log.Warn("fail to connect the milvus", zap.String("uri", milvusConnectParam.URI), zap.Error(err))
 			return errors.WithMessage(err, "fail to connect the milvus")
 		}
 	} else if kafkaConnectParam.Address != "" {
@@ -738,7 +739,7 @@ func (e *MetaCDC) validCreateRequest(req *request.CreateRequest) error {
 			cdcwriter.KafkaTopicOption(kafkaConnectParam.Topic),
 		)
 		if err != nil {
-			log.Warn("fail to connect the kafka", zap.Any("connect_param", kafkaConnectParam), zap.Error(err))
+			log.Warn("fail to connect the kafka", zap.String("address", kafkaConnectParam.Address), zap.String("topic", kafkaConnectParam.Topic), zap.Error(err))
 			return errors.WithMessage(err, "fail to connect the kafka")
 		}
 	}
